@@ -105,6 +105,8 @@ type Case struct {
 	SetupFault   string    `json:"setup_fault,omitempty"` // nomodel | infofail | bindfail : NewAgent must return an error (no run)
 	ModelAPI     string    `json:"model_api"` // chat | toolcalling
 	IndexInWhole bool      `json:"index_in_whole,omitempty"`
+	IndexBase    int       `json:"index_base,omitempty"`   // the ToolCall.Index the model gives the i-th call of a message is
+	IndexStride  int       `json:"index_stride,omitempty"` // IndexBase + IndexStride*i (stride 0 = 1): numbering from 1, with gaps, ...
 	PipeStream   bool      `json:"pipe_stream,omitempty"` // the model streams through a Pipe (else array-backed)
 	Input        []Msg     `json:"input"`
 	Script       []Step    `json:"script"`
@@ -239,6 +241,16 @@ func (d *decoyModel) Stream(context.Context, []*schema.Message, ...model.Option)
 	return nil, errors.New("DECOY#: the deprecated AgentConfig.Model was called although a ToolCallingModel is configured")
 }
 
+// the ToolCall.Index of the i-th call of a message (increasing with i: a streamed message has its
+// calls ordered by it)
+func (c *Case) idx(i int) int {
+	st := c.IndexStride
+	if st <= 0 {
+		st = 1
+	}
+	return c.IndexBase + st*i
+}
+
 // next records the call and returns the scripted step (nil = failure)
 func (m *fakeModel) next(ctx context.Context, input []*schema.Message) (*Step, int) {
 	rc := recOf(ctx)
@@ -264,7 +276,7 @@ func (m *fakeModel) Generate(ctx context.Context, input []*schema.Message, _ ...
 	for i, cl := range st.Calls {
 		tc := schema.ToolCall{ID: cl.ID, Type: "function", Function: schema.FunctionCall{Name: cl.Name, Arguments: cl.Args}}
 		if m.c.IndexInWhole {
-			idx := i
+			idx := m.c.idx(i)
 			tc.Index = &idx
 		}
 		out.ToolCalls = append(out.ToolCalls, tc)
@@ -947,6 +959,10 @@ func runAgent(tg *target, c *Case, mode string) (o RunObs) {
 						if used[k] || cl.ID != m.TCID {
 							continue
 						}
+						// a call answered by the UnknownToolsHandler has no callbacks: no message of the future is its
+						if kindIn(c.toolsOf(!tg.exported), cl.Name) == "" {
+							continue
+						}
 						if pass == 0 && strings.Join(c.toolChunks(cl.Name, cl.Args), "") != m.Content {
 							continue
 						}
@@ -1534,7 +1550,7 @@ func splitString(r *lib.Rng, s string, n int) []string {
 }
 
 // chunking of one scripted message. order: 0 tool calls first, 1 content first, 2 interleaved
-func genChunks(r *lib.Rng, st *Step, order int) []Chunk {
+func genChunks(r *lib.Rng, c *Case, st *Step, order int) []Chunk {
 	var contentChunks, fragChunks []Chunk
 	for _, p := range splitString(r, st.Content, r.Range(1, 3)) {
 		contentChunks = append(contentChunks, Chunk{Content: p})
@@ -1542,7 +1558,7 @@ func genChunks(r *lib.Rng, st *Step, order int) []Chunk {
 	for i, cl := range st.Calls {
 		pieces := splitString(r, cl.Args, r.Range(1, 3))
 		for j, p := range pieces {
-			f := Frag{Index: i, Args: p}
+			f := Frag{Index: c.idx(i), Args: p}
 			if j == 0 {
 				f.ID, f.Name = cl.ID, cl.Name
 			}
@@ -1657,6 +1673,9 @@ func genCase(r *lib.Rng, tier string) *Case {
 	if r.Chance(1, 8) {
 		L = r.Range(7, 8) // long enough to exceed the default limit
 	}
+	if r.Chance(1, 4) { // the model's own numbering of its tool calls: from 1 or 2, with gaps
+		c.IndexBase, c.IndexStride = r.Range(0, 2), r.Range(1, 2)
+	}
 	unknown := r.Chance(1, 12)
 	idMode := 0 // tool-call ids: unique (mostly), all empty, or derived from the tool name
 	if r.Chance(1, 6) {
@@ -1694,7 +1713,7 @@ func genCase(r *lib.Rng, tier string) *Case {
 				st.Content = ""
 			}
 		}
-		st.Chunks = genChunks(r, &st, order)
+		st.Chunks = genChunks(r, c, &st, order)
 		c.Script = append(c.Script, st)
 	}
 	// rarely a malformed stream: a last chunk naming another tool for the call at index 0 (Generate,
@@ -1702,7 +1721,7 @@ func genCase(r *lib.Rng, tier string) *Case {
 	if r.Chance(1, 30) {
 		k := r.Intn(len(c.Script))
 		if st := &c.Script[k]; !st.Fail && len(st.Calls) > 0 {
-			st.Chunks = append(st.Chunks, Chunk{Frags: []Frag{{Index: 0, Name: "othertool"}}})
+			st.Chunks = append(st.Chunks, Chunk{Frags: []Frag{{Index: c.idx(0), Name: "othertool"}}})
 		}
 	}
 	switch r.Intn(4) {
@@ -1968,6 +1987,7 @@ func (engine) Run(ci any) lib.Result {
 		}
 	}
 	res.Tags = append(res.Tags, "tool-call-ids:"+idTag)
+	res.Tags = append(res.Tags, fmt.Sprintf("tool-call-index=position:%v", c.IndexBase == 0 && c.IndexStride <= 1))
 	for k, st := range c.Script {
 		if !st.Fail && !concatOK(st.Chunks) && k < len(gen.Inputs) {
 			res.Tags = append(res.Tags, "model-stream:malformed(reached)")
@@ -1999,10 +2019,10 @@ func cloneCase(c *Case) *Case {
 
 // the chunking of a reply rebuilt after its calls changed: one whole chunk, or - if the
 // original streamed content before the first tool call - the content chunk, then the calls
-func rechunk(st *Step, contentFirst bool) {
+func rechunk(c *Case, st *Step, contentFirst bool) {
 	var frags []Frag
 	for i, cl := range st.Calls {
-		frags = append(frags, Frag{Index: i, ID: cl.ID, Name: cl.Name, Args: cl.Args})
+		frags = append(frags, Frag{Index: c.idx(i), ID: cl.ID, Name: cl.Name, Args: cl.Args})
 	}
 	switch {
 	case contentFirst && st.Content != "" && len(frags) > 0:
@@ -2084,7 +2104,7 @@ func (engine) Shrink(ci any, stillFails func(any) bool) any {
 					}
 					cf := contentChunkBeforeToolCallChunk(st.Chunks)
 					st.Calls = append(st.Calls[:j], st.Calls[j+1:]...)
-					rechunk(st, cf)
+					rechunk(c, st, cf)
 					return true
 				}) {
 					changed = true
@@ -2096,7 +2116,7 @@ func (engine) Shrink(ci any, stillFails func(any) bool) any {
 				if st.Fail || len(st.Chunks) <= 2 {
 					return false
 				}
-				rechunk(st, contentChunkBeforeToolCallChunk(st.Chunks))
+				rechunk(c, st, contentChunkBeforeToolCallChunk(st.Chunks))
 				return true
 			})
 		}
